@@ -31,6 +31,7 @@ BOUNDS = {
     "quick": "m<=4 all 33 permutations (+ rank profiles: every (independent rows, pivot columns) pattern for m,n<=4; larger generic shapes 65x3, 70x4, 130x2, 3x70, 40x40), n in {1,m-1,m,m+1}, 3 letter kinds, 2 modes; singular cells m,n<=4; ties m<=3; generic m,n<=5",
     "thorough": "m<=7 all 5913 permutations, n in {1,m-1,m,m+1,m+2}, 4 letter kinds, 2 modes; singular cells m,n<=5; ties m<=3; generic m,n<=6 x 4 fill rows",
 }
+THOROUGH_STREAMS = 3
 WALL_BUDGET = {"quick": 240, "thorough": 1800}
 ASSUMPTIONS = [
     "numpy-quaternion division a/b = a*conj(b)/|b|^2 is exact on the dyadic letters used (verified by the exact clause itself)",
